@@ -492,6 +492,7 @@ BOUNDS = {
                     'contents symbolic, depth up to 64 (chains 200) with a symbolic leaf; budget 40*(n+e)^2+3000 lines per operation group',
 }
 OUTSIDE = ['cost as a function of DAG shape outside the enumerated families (shape is not a data value a solver can quantify over)',
+           'dictionary cells that are DAGs (a fork whose two references are the same cell, repeated): such a bag DENOTES exponentially many keys, so no parser can stay linear in the input; the dictionary inputs here are trees',
            'time spent inside C extensions (bitarray, hashlib) and in byte-string copies - counted as one line each',
            'dictionary parsing of DAG-shaped (shared) dictionaries: the result itself is exponentially large there',
            'TL constructor ids at positions the template leaves symbolic are assumed unregistered, except the template\'s own constructors (forked)']
